@@ -30,10 +30,7 @@ pub fn line_changes_from_diff(
         }
         let target_file = unquote_git_path(&patched_file.target_file);
         result.insert(
-            target_file
-                .strip_prefix("b/")
-                .unwrap_or(&target_file)
-                .into(),
+            path_from_bytes(target_file.strip_prefix(b"b/").unwrap_or(&target_file)),
             line_changes(&patched_file),
         );
     }
@@ -42,13 +39,13 @@ pub fn line_changes_from_diff(
 
 /// Returns the path as git meant it: git writes a path that contains "unusual" characters (non-ASCII
 /// bytes, double quotes, backslashes, control characters) in double quotes with C-style escapes,
-/// e.g. `"b/caf\303\251.py"`.
-fn unquote_git_path(path: &str) -> String {
+/// e.g. `"b/caf\303\251.py"`. The result is the path's bytes: a file name need not be valid UTF-8.
+fn unquote_git_path(path: &str) -> Vec<u8> {
     let Some(quoted) = path
         .strip_prefix('"')
         .and_then(|path| path.strip_suffix('"'))
     else {
-        return path.to_string();
+        return path.as_bytes().to_vec();
     };
     let mut unquoted = Vec::with_capacity(quoted.len());
     let mut bytes = quoted.bytes();
@@ -80,7 +77,20 @@ fn unquote_git_path(path: &str) -> String {
             None => unquoted.push(b'\\'),
         }
     }
-    String::from_utf8_lossy(&unquoted).into_owned()
+    unquoted
+}
+
+/// Returns the path that consists of exactly the given bytes.
+#[cfg(unix)]
+fn path_from_bytes(bytes: &[u8]) -> PathBuf {
+    use std::os::unix::ffi::OsStrExt;
+    PathBuf::from(std::ffi::OsStr::from_bytes(bytes))
+}
+
+/// Returns the path for the given bytes (lossily where paths are not byte strings).
+#[cfg(not(unix))]
+fn path_from_bytes(bytes: &[u8]) -> PathBuf {
+    PathBuf::from(String::from_utf8_lossy(bytes).into_owned())
 }
 
 fn line_changes(patched_file: &PatchedFile) -> Vec<LineChange> {
